@@ -60,6 +60,48 @@ class Spec:
         return W.canon()
 
 
+class Spec3:
+    """Two receivers on the sender's frequency (BTS and its child) and one sender (MS): loss simulation of
+    one receiver must not leak into what the other one gets (per-recipient budget and mute)."""
+    def __init__(self, v1, v2, tier):
+        self.name = "C18/2rx/v%d,v%d" % (v1, v2)
+        self.defs = trxmodel.std_config([("C1", 5700, 1)])
+        self.alpha = []
+        for r in (0, 2):
+            self.alpha += [("ctrl", r, "FAKE_DROP %d" % n) for n in (0, 1, 2)]
+            self.alpha += [("ctrl", r, "RFMUTE %d" % x) for x in (0, 1)]
+        self.alpha += [("ctrl", 0, "FAKE_DROP 1 2"), ("ctrl", 2, "FAKE_DROP 2 2")]
+        self.alpha += [("burst", fn) for fn in ((0, 1, 2) if tier == "quick" else (0, 1, 2, 3, 2715647))]
+        self.prefix = [(1, "RXTUNE %d" % F2), (1, "TXTUNE %d" % F1), (0, "RXTUNE %d" % F1), (0, "TXTUNE %d" % F2),
+                       (2, "RXTUNE %d" % F1), (2, "TXTUNE %d" % F2), (0, "SETFORMAT %d" % v1), (2, "SETFORMAT %d" % v2),
+                       (0, "POWERON"), (1, "POWERON")]
+
+    def build(self):
+        W = AppWorld(self.defs)
+        for i, c in self.prefix:
+            v = W.ctrl(i, c)
+            assert not v, v
+        return W
+
+    def events(self, W, hist):
+        return self.alpha
+
+    def step(self, W, ev):
+        W.outcome = None
+        if ev[0] == "ctrl":
+            return W.ctrl(ev[1], ev[2])
+        fn = ev[1]
+        v = W.burst(1, fn, tn=fn % 8, pwr=fn % 4)
+        if W.last_id is None:
+            v.append(("not-accepted", "reference did not accept the probe burst (harness error)"))
+        v += W.handler_tick(fn)
+        W.outcome = tuple(sorted((o[2], len(o[3])) for o in W.last_out))
+        return v
+
+    def canon(self, W):
+        return W.canon()
+
+
 def run(ctx):
     allout = set()
     for vs in (0, 1):
@@ -67,6 +109,10 @@ def run(ctx):
             spec = Spec(vs, vr, ctx.tier)
             r = explore.bfs(ctx, spec, max_depth=30, label="v%dv%d" % (vs, vr))
             allout |= {(spec.name,) + o for o in r["outcomes"]}
+    for v1, v2 in ((0, 0), (1, 1), (0, 1), (1, 0)):
+        spec = Spec3(v1, v2, ctx.tier)
+        r = explore.bfs(ctx, spec, max_depth=30, label="2rx_v%dv%d" % (v1, v2))
+        allout |= {(spec.name,) + o for o in r["outcomes"]}
     c = ctx.cov
     c["exhaustive"] = all(r["frontier_exhausted"] for r in c["runs"])
     c["distinct_outcomes"] = len(allout)
@@ -77,6 +123,17 @@ def run(ctx):
 
 
 def replay(ctx, case):
+    if case["spec"].startswith("C18/2rx/"):
+        v1, v2 = int(case["spec"][9]), int(case["spec"][12])
+        spec = Spec3(v1, v2, "thorough")
+        W = spec.build()
+        hist = [tuple(e) for e in case["hist"]]
+        for k, ev in enumerate(hist):
+            v = spec.step(W, ev)
+            if v and k == len(hist) - 1:
+                for c, m in v:
+                    ctx.violation("%s:2rx_v%dv%d_%s" % (ctx.prop, v1, v2, c), case, m)
+        return
     vs, vr = int(case["spec"][5]), int(case["spec"][9])
     spec = Spec(vs, vr, "thorough")
     W = spec.build()
